@@ -916,6 +916,7 @@ int vorbis_encode_setup_vbr(vorbis_info *vi,
   if(rate<=0) return OV_EINVAL;
 
   ci=vi->codec_setup;
+  if(!ci)return(OV_EINVAL);
   hi=&ci->hi;
 
   /* the set-up has been completed: its tables are built for the
@@ -970,6 +971,7 @@ int vorbis_encode_setup_managed(vorbis_info *vi,
   if(rate<=0) return OV_EINVAL;
 
   ci=vi->codec_setup;
+  if(!ci)return(OV_EINVAL);
   hi=&ci->hi;
   tnominal=nominal_bitrate;
 
